@@ -1,3 +1,4 @@
 import QhttpGen.Range
 import QhttpGen.Ack
 import QhttpGen.Tables
+import QhttpGen.Copier
